@@ -1,2 +1,88 @@
-(* Properties/C13.v — property theorems only. (stub) *)
+(* Properties/C13.v — 2-bit DNA packing is lossless and append-only.
+   Only statements; every proof is [exact <lemma>].
+   The model (Model/Seq.v) reads the Ntoi, Iton and DNAFrom2Bit tables from
+   gen/Tables.v, which is regenerated from the implementation on every run;
+   the spec objects (code2, code_at, pack4, base_of) are in Spec/SeqSpec.v,
+   [upper_byte] in Base.v, [dna8] in Proofs/TranslateProofs.v
+   (= Forall (fun b => is_dna8 b = true)).
+   Not covered here (harness only): that dst's existing content is untouched
+   as memory (aliasing). *)
+From Coq Require Import String.
 From Bio Require Import Base.
+From Bio.gen Require Import Tables.
+From Bio.Model Require Import Seq.
+From Bio.Spec Require Import SeqSpec.
+From Bio.Proofs Require Import TranslateProofs SeqProofs SeqProofsB.
+
+(* ceil(len(s)/4) bytes are appended to dst, whose content stays in front *)
+Theorem C13_to2bit_length : forall dst s, dna8 s ->
+  exists p, to2bit dst s = Ok (dst ++ p) /\ length p = ((length s + 3) / 4)%nat.
+Proof. exact to2bit_length. Qed.
+Print Assumptions C13_to2bit_length.
+
+Theorem C13_to2bit_append : forall dst s p, to2bit [] s = Ok p -> to2bit dst s = Ok (dst ++ p).
+Proof. exact to2bit_append. Qed.
+Print Assumptions C13_to2bit_append.
+
+(* first base in the most significant bits, A=0 C=1 G=2 T=3, missing bases = 0 *)
+Theorem C13_to2bit_msb_first : forall dst s, dna8 s ->
+  exists p, to2bit dst s = Ok (dst ++ p) /\
+    forall j, (4 * j < length s)%nat ->
+      nth_error p j =
+      Some (64 * code_at s (4 * j) + 16 * code_at s (4 * j + 1)
+            + 4 * code_at s (4 * j + 2) + code_at s (4 * j + 3)).
+Proof. exact to2bit_msb_first. Qed.
+Print Assumptions C13_to2bit_msb_first.
+
+(* DNAFrom2Bit of the packed bytes: the upper-case form of s followed only by
+   'A' padding up to a multiple of four *)
+Theorem C13_from_to : forall s, dna8 s ->
+  exists p, to2bit [] s = Ok p /\
+    from2bit [] p = Ok (map upper_byte s ++ repeat 65 (Nat.modulo (4 - Nat.modulo (length s) 4) 4)).
+Proof. exact from_to. Qed.
+Print Assumptions C13_from_to.
+
+(* for every byte string p, DNATo2Bit(DNAFrom2Bit(p)) = p *)
+Theorem C13_to_from : forall p, Forall (fun b => b < 256) p ->
+  exists s, from2bit [] p = Ok s /\ to2bit [] s = Ok p.
+Proof. exact to_from. Qed.
+Print Assumptions C13_to_from.
+
+(* the decoding table: byte 64a+16b+4c+d expands to ACGT[a] ACGT[b] ACGT[c] ACGT[d] *)
+Theorem C13_from2bit_table : forall a b c d, a < 4 -> b < 4 -> c < 4 -> d < 4 ->
+  from2bit_byte (pack4 a b c d) = Some [base_of a; base_of b; base_of c; base_of d].
+Proof. exact from2bit_pack4. Qed.
+Print Assumptions C13_from2bit_table.
+
+(* Ntoi and Iton are mutually inverse on the four bases (both cases); Ntoi is -1
+   elsewhere; Iton outside 0..3 gives 'N' *)
+Theorem C13_ntoi_iton_inverse :
+  (forall b c, code2 b = Some c -> ntoi b = Z.of_N c /\ iton (ntoi b) = upper_byte b)
+  /\ (forall b, is_dna8 b = false -> ntoi b = (-1)%Z)
+  /\ (forall i, (0 <= i <= 3)%Z -> ntoi (iton i) = i /\ is_dna8 (iton i) = true)
+  /\ (forall i, (i < 0 \/ 3 < i)%Z -> iton i = 78).
+Proof. exact ntoi_iton_inverse. Qed.
+Print Assumptions C13_ntoi_iton_inverse.
+
+(* bytes outside aAcCgGtT make DNATo2Bit panic, and nothing else does *)
+Theorem C13_to2bit_panics_iff : forall dst s,
+  to2bit dst s = Panic <-> Exists (fun b => is_dna8 b = false) s.
+Proof. exact to2bit_panics_iff. Qed.
+Print Assumptions C13_to2bit_panics_iff.
+
+(* DNAFrom2Bit panics only on values that are not bytes (unreachable from Go) *)
+Theorem C13_from2bit_panics_iff : forall dst p,
+  from2bit dst p = Panic <-> Exists (fun b => 256 <= b) p.
+Proof. exact from2bit_panics_iff. Qed.
+Print Assumptions C13_from2bit_panics_iff.
+
+(* Non-vacuity: concrete values meeting the hypotheses. *)
+Example C13_example :
+  dna8 (bs "acGTt")
+  /\ to2bit [7] (bs "acGTt") = Ok [7; 27; 192]
+  /\ from2bit [] [27; 192] = Ok (bs "ACGTTAAA")
+  /\ to2bit [] (bs "ACGTTAAA") = Ok [27; 192]
+  /\ code_at (bs "acGTt") 3 = 3 /\ code_at (bs "acGTt") 7 = 0
+  /\ to2bit [] (bs "ACNT") = Panic
+  /\ ntoi 103 = 2%Z /\ iton 2 = 71 /\ iton 4 = 78 /\ iton (-1) = 78.
+Proof. vm_compute. repeat split; repeat constructor. Qed.
